@@ -213,6 +213,19 @@ func runRef(c RefCase, r *runlog.R) error {
 			return fmt.Errorf("%s: String(%q, -1): %v", expl, p.name, gerr)
 		}
 		found := gerr == nil
+		if !found {
+			// an error of the getter means "nothing there" only if Has agrees; a
+			// container or a nil entry at that name is not a string, but it exists
+			var has bool
+			herr := uc.Safe("Has", func() (err error) { has, err = cfg.Has(p.name, -1, opts...); return })
+			if isPanicErr(herr) {
+				return fmt.Errorf("%s: Has(%q, -1): %v", expl, p.name, herr)
+			}
+			if herr == nil && has {
+				r.Class("other spelling of the number: addresses a container or nil entry (forms not asserted)")
+				continue
+			}
+		}
 		switch p.tag {
 		case "r":
 			// checked above: found with "v"
